@@ -135,9 +135,20 @@ def _direction_a(ctx, bins, tier, name):
         tres, rc, out = r
         if rc != 0:
             if rc in CRASH_SIGNALS:
+                # which sequence? walk again single-threaded with a crash journal (the plan is written before it is run)
+                jpath = os.path.join(ctx.workdir, "journal_%s_%s.json" % (name, kind))
+                plan = None
+                try:
+                    core.tlc_pipe("MC_Buffer.tla", _export_cfg(ctx, name, kind),
+                                  [os.path.join(bins, "vh-buffer"), "graph", "--depth", str(depth), "--journal", jpath],
+                                  cwd=SPECDIR, timeout=1200)
+                    plan = json.load(open(jpath))
+                except Exception as e:  # noqa
+                    core.log("[C19] crash journal failed: %s" % e)
                 ctx.report("crash:graph:%s" % kind,
-                           "the replay process died with code %s while executing TLC-generated sequences on the %s store "
-                           "(memory corruption or abort inside the library)" % (rc, kind), {"kind": kind, "rc": rc})
+                           "the replay process died with code %s while executing a TLC-generated sequence on the %s store "
+                           "(memory corruption or abort inside the library): %s" % (rc, kind, json.dumps(plan)[:600]),
+                           {"kind": kind, "rc": rc, "plan": plan, "crash": True})
                 continue
             raise core.ToolError("vh-buffer graph (%s) exited with %s: %s" % (kind, rc, out[-500:]))
         try:
@@ -200,7 +211,7 @@ def _direction_b(ctx, bins, tier):
         if rc != 0:
             if rc in CRASH_SIGNALS:
                 ctx.report("crash:drive", "the random driver died with code %s (memory corruption or abort inside the "
-                           "library)" % rc, {"drive": [ctx.seed * 100 + i, runs, maxcap, ops]})
+                           "library)" % rc, {"drive": [ctx.seed * 100 + i, runs, maxcap, ops], "crash": True})
                 continue
             raise core.ToolError("vh-buffer drive exited with %s" % rc)
         label = "trace %d (seed %d, %d runs, capacity <= %d)" % (i, ctx.seed * 100 + i, runs, maxcap)
@@ -260,8 +271,14 @@ def _compact(plan):
             parts.append("O " + " ".join(map(str, a["ks"])))
         elif k == "extend":
             parts.append("E %d %s" % (["exact", "nohint", "under", "over"].index(a["it"]), " ".join(map(str, a["bs"]))))
-        elif k in ("write", "advance", "scribble", "readclose"):
-            parts.append({"write": "W", "advance": "A", "scribble": "X", "readclose": "Q"}[k] + " " + " ".join(map(str, a["bs"])))
+        elif k == "readclose":
+            parts.append("Q %d %s" % (a["claim"], " ".join(map(str, a["bs"]))))
+        elif k == "overadvance":
+            parts.append("V %d" % a["n"])
+        elif k == "touch":
+            parts.append("T " + " ".join(map(str, a["ks"])))
+        elif k in ("write", "advance", "scribble"):
+            parts.append({"write": "W", "advance": "A", "scribble": "X"}[k] + " " + " ".join(map(str, a["bs"])))
         elif k == "read":
             parts.append("R %d %s %s" % (len(a["bs"]), " ".join(map(str, a["bs"])), " ".join(map(str, a["ks"]))))
         else:
@@ -362,7 +379,7 @@ def run(ctx):
     bins = core.build_harness(["vh-buffer"])
     ctx.coverage["rule"] = (
         "direction A: every path of <= MaxOps operations (open / nested open with and without cap_at, write, extend with iterators whose size_hint is exact / absent / under- / over-reporting, "
-        "advance, scribble, read_buffer, read_buffer_ref on the view itself, close, close after initialized(), unwind) through the TLC-generated graph of "
+        "advance, scribble, read_buffer, read_buffer_ref on the view itself, counts above what is left given to advance / read_buffer_ref, intermediates dropped without use, close, close after initialized(), unwind) through the TLC-generated graph of "
         "MC_Buffer for each backing store, capacity and pre-existing length of the config, each executed on the real "
         "API; distinct by construction (different operation sequences); counted non-trivial when at least one operation "
         "carries >= 1 byte; evaluations additionally counts the events of the recorded random traces (direction B)")
@@ -370,7 +387,7 @@ def run(ctx):
     res = core.run_tlc("MC_Buffer.tla", "MC_%s.cfg" % tier, cwd=SPECDIR, workers=4,
                        timeout=300 if tier == "quick" else 1200, coverage=True)
     ctx.add_states(res, "MC_Buffer %s: invariants InitLeSpare Nested Contents OwnerBytes Untouched, "
-                        "action properties Frame WriteBack Refusal SliceReported" % tier)
+                        "action properties Frame WriteBack Refusal SliceReported RefusedCounts" % tier)
     if not res.ok:
         if res.violated:
             ctx.report("spec:%s" % res.violated, "Buffer.tla itself violates %s (design error)" % res.violated, {"tlc": res.out[-3000:]})
@@ -407,6 +424,17 @@ def replay(ctx, path):
     ctx._nrep = 9000  # do not overwrite the replay files of the run that produced `path`
     rp = obj.get("replay", {})
     plan = rp.get("plan")
+    if rp.get("drive"):
+        bins = core.build_harness(["vh-buffer"])
+        rc, out = core.run_harness([os.path.join(bins, "vh-buffer"), "drive"] + [str(x) for x in rp["drive"]], timeout=300)
+        ctx.coverage["evaluations"] += 1
+        ctx.coverage["distinct_nontrivial"] = 2
+        ctx.sample({"drive": rp["drive"]})
+        if rc in CRASH_SIGNALS:
+            ctx.report(obj.get("key", "crash:drive"), "the random driver still dies with code %s" % rc, rp)
+        else:
+            print("replay: the random driver ran to completion (rc %s)" % rc)
+        return
     if not plan:
         raise core.ToolError("replay file has no plan")
     bins = core.build_harness(["vh-buffer"])
